@@ -268,6 +268,26 @@ func LoadVariant(repo, variant, tier string) (*Ctx, error) {
 				}
 				continue
 			}
+			for i := 0; i < iface.NumMethods(); i++ {
+				m := iface.Method(i)
+				var all []*ssa.Function
+				for _, impl := range impls {
+					fn := c.Prog.LookupMethod(types.NewPointer(impl), m.Pkg(), m.Name())
+					if fn == nil || fn.Blocks == nil {
+						continue
+					}
+					if fn.Synthetic != "" {
+						if d := c.DeclaredMethod(impl, m.Name()); d != nil {
+							fn = d
+						}
+					}
+					all = append(all, fn)
+				}
+				if len(all) > 0 {
+					seamsAll.Store(m, all)
+					c.seamKeys = append(c.seamKeys, m)
+				}
+			}
 			if len(impls) != 1 {
 				continue
 			}
@@ -566,9 +586,25 @@ func Seam(com *ssa.CallCommon) *ssa.Function {
 	return nil
 }
 
+// seamsAll: method of an unexported in-scope interface -> the methods of all its in-scope implementations (strategy and
+// stage objects: the set of implementations is closed, nobody outside the module can add one).
+var seamsAll sync.Map
+
+// SeamAll resolves an invoke through an unexported in-scope interface to every implementation.
+func SeamAll(com *ssa.CallCommon) []*ssa.Function {
+	if !com.IsInvoke() {
+		return nil
+	}
+	if f, ok := seamsAll.Load(com.Method); ok {
+		return f.([]*ssa.Function)
+	}
+	return nil
+}
+
 // Release drops what Load registered globally for this program.
 func (c *Ctx) Release() {
 	for _, k := range c.seamKeys {
+		seamsAll.Delete(k)
 		seams.Delete(k)
 	}
 	c.seamKeys = nil
